@@ -179,8 +179,9 @@ class PathInterp(sym.Interp):
         return sym.Interp.assign(self, lhs, val, node)
 
 
-def explore(F, body, setup=None, limit=64):
-    """All paths of a loop-free body. Returns list of Path; raises sym.Unsupported if outside the domain."""
+def explore(F, body, setup=None, limit=64, node=None, stop_at=None, interp_cls=None):
+    """All paths of a loop-free body (or of `node` inside it; or of the statements of the body's top block that
+    precede `stop_at`). Returns list of Path; raises sym.Unsupported if outside the domain."""
     out = []
     stack = [[]]
     while stack:
@@ -203,16 +204,31 @@ def explore(F, body, setup=None, limit=64):
             pos[0] += 1
             pc.append(c if d else sp.Not(c))
             return d
-        it = PathInterp(F, body, decide)
+        it = (interp_cls or PathInterp)(F, body, decide)
         if setup:
             setup(it)
+        fell_through = True
         try:
-            res = it.ev(body["body"])
+            if stop_at is not None:
+                res = None
+                for st in body["body"]["stmts"]:
+                    e = st.get("e") if st.get("k") in ("ExprS", "Semi") else None
+                    if st is stop_at or e is stop_at:
+                        break
+                    it.run_stmt(st)
+            else:
+                res = it.ev(node if node is not None else body["body"])
         except sym.Return as r:
             res = r.value
+            fell_through = False
+        except (sym.Break, sym.Continue) as bc:
+            res = bc
+            fell_through = False
         if isinstance(res, sym.Variant):
             res = PathInterp.norm_opt(res)
-        out.append(Path(pc, dict(it.fields), res, it))
+        pth = Path(pc, dict(it.fields), res, it)
+        pth.fell_through = fell_through
+        out.append(pth)
         if len(out) > limit:
             raise sym.Unsupported(body["body"], "more than %d paths" % limit)
     return out
